@@ -45,10 +45,13 @@ func (c Cipher) DecryptReader(key []byte, stream filesystem.Reader) (reader file
 	)
 	// a Read may legally return fewer bytes than asked for: read the whole tag
 	if _, err = io.ReadFull(stream, p); err != nil {
+		// the stream is ours from here on: do not leave it open (a memory file stays locked)
+		stream.Close()
 		return nil, err
 	}
 	ckey = NewCipherKey(p)
 	if fileCipher = c.mapping[ckey]; fileCipher == nil {
+		stream.Close()
 		return nil, goaterr.Errorf("Unknow cipher for %v key", ckey)
 	}
 	return fileCipher.DecryptReader(key, stream)
